@@ -10,9 +10,10 @@ import tempfile
 from lib.evidence import Report
 from checks import algebra as alg
 
-SWEEPERS_COVERED = ['generic_implicit (incl. k-dependent preconditioners through updateVariableCoeffs)', 'imex_1st_order', 'explicit', 'multi_implicit', 'RungeKutta base class (stage form, end point) with arbitrary lower-triangular tableaux']
+SWEEPERS_COVERED = ['generic_implicit (incl. k-dependent preconditioners through updateVariableCoeffs)', 'imex_1st_order', 'explicit', 'multi_implicit', 'RungeKutta base class (stage form, end point) with arbitrary lower-triangular tableaux',
+                   'MultiStep base class with arbitrary dyadic coefficients and variable step sizes, AdamsBashforthExplicit1Step, BackwardEuler, AdamsMoultonImplicit1Step (spec/Multistep.tla)']
 SWEEPERS_NOT_COVERED = ['imex_1st_order_mass', 'verlet', 'boris_2nd_order', 'RungeKuttaIMEX', 'the shipped float tableaux', 'Runge_Kutta_Nystrom',
-                        'Multistep', 'ParaDiagSweepers', 'DAE project sweepers', '*_MPI flavours (see C08)']
+                        'AdamsMoultonImplicit2Step coefficient table (non-dyadic; its update code is the covered base class) and starting values', 'ParaDiagSweepers', 'DAE project sweepers', '*_MPI flavours (see C08)']
 
 
 def run(tier, seed):
@@ -102,6 +103,7 @@ def run(tier, seed):
                     rep.violation('model.' + res.violation, dict(kind='model', label=lab, tlc_error=res.error_text[:4000]))
                 elif not res.ok:
                     rep.machinery.append(f'MC {lab} did not complete: {res.raw[-300:]}')
+            nontrivial += multistep_stage(rep, pool, tier, seed, scratch)
             rep.evaluations = rep.traces
             rep.distinct_nontrivial = nontrivial
     finally:
@@ -109,9 +111,78 @@ def run(tier, seed):
     return rep.finish()
 
 
+def _ms_record(args):
+    from harness import multistep
+    return multistep.record(*args)
+
+
+def multistep_stage(rep, pool, tier, seed, scratch):
+    """linear multistep sweepers with variable step sizes: spec/Multistep.tla (model check + validation of recorded runs)"""
+    import re
+    from lib import tlc
+    from lib.errors import describe, is_library
+    nontrivial = 0
+    d = os.path.join(scratch, 'ms')
+    os.makedirs(d, exist_ok=True)
+    # design properties of the specification itself
+    cfg = os.path.join(d, 'mc.cfg')
+    tlc.write_cfg(cfg, spec='Spec', constants=dict(P=3 if tier == 'quick' else 5, MODE='"MC"', MAXSTEPS=2, DTQS='{1, 2, 4}'),
+                  invariants=['TimesIncreasing', 'CacheShape'], properties=['ConstantPreserved', 'ShiftOnly', 'WidthsOfCachedSteps'],
+                  check_deadlock=False)
+    mc = pool.apply_async(tlc.run_tlc, ('Multistep', cfg), dict(workers=4, timeout=1500))
+    # recorded runs of the real classes
+    for P, count in ((5, 300 if tier == 'quick' else 3000), (7, 300 if tier == 'quick' else 3000)):
+        try:
+            cases, recs = pool.apply(_ms_record, ((seed + P, P, count),))
+        except Exception as e:  # noqa: BLE001
+            text = describe(e)
+            if is_library(text):
+                rep.problem('multistep run raised ' + text, dict(kind='multistep', P=P, seed=seed + P, count=count), clause='ms.unexpected_library_error')
+            else:
+                rep.machinery.append('multistep harness: ' + text)
+            continue
+        trace = os.path.join(d, f'tr{P}.json')
+        json.dump(recs, open(trace, 'w'))
+        cfg = os.path.join(d, f'tv{P}.cfg')
+        tlc.write_cfg(cfg, spec='Spec', constants=dict(P=P, MODE='"TV"', MAXSTEPS=0, DTQS='{}'),
+                      invariants=['Conforms', 'TimesIncreasing', 'CacheShape'], check_deadlock=False)
+        res = tlc.run_tlc('Multistep', cfg, workers=4, timeout=1500, env_extra=dict(MS_TRACE=trace))
+        rep.add_tlc(res, f'TV Multistep P={P} ({count} recorded runs, {sum(len(r["steps"]) for r in recs)} updates)')
+        rep.traces += count
+        nontrivial += sum(1 for r in recs if any(not s['singular'] for s in r['steps']) and r['a'] != 0)
+        if res.violation:
+            m = re.search(r'/\\ c = (\d+)', res.error_text or '')
+            k = re.findall(r'/\\ k = (\d+)', res.error_text or '')
+            cid = int(m.group(1)) if m else None
+            rep.violation('ms.' + res.violation, dict(kind='multistep', P=P, clause=res.violation, case=cases[cid - 1] if cid else None,
+                                                      record=recs[cid - 1] if cid else None, update=int(k[-1]) if k else None,
+                                                      tlc_error=(res.error_text or '')[:3000]))
+        elif not res.ok:
+            rep.machinery.append(f'TV Multistep P={P} did not complete: {res.raw[-300:]}')
+        elif res.distinct != count + sum(len(r['steps']) for r in recs):
+            rep.machinery.append(f'TV Multistep P={P}: {res.distinct} states for {count} runs -- trace not consumed completely')
+        rep.cov.setdefault('multistep', []).append(dict(P=P, runs=count, updates=sum(len(r['steps']) for r in recs),
+                                                        singular=sum(1 for r in recs for s in r['steps'] if s['singular']),
+                                                        classes=sorted({c['cls'] for c in cases})))
+        if recs:
+            rep.samples.append(dict(P=P, multistep=recs[0]))
+    res = mc.get()
+    rep.add_tlc(res, 'MC Multistep (all caches / step-size sequences within bounds)')
+    if res.violation:
+        rep.violation('ms.model.' + res.violation, dict(kind='model', label='Multistep', tlc_error=(res.error_text or '')[:3000]))
+    elif not res.ok:
+        rep.machinery.append(f'MC Multistep did not complete: {res.raw[-300:]}')
+    return nontrivial
+
+
 def replay(path):
     d = json.load(open(path))
     from harness import zp_cases
+    if d.get('kind') == 'multistep':
+        from harness import multistep
+        now = multistep.run_case(d['case'], d['P']) if d.get('case') else None
+        print(json.dumps(dict(clause=d['clause'], recorded=d.get('record'), now=now, update=d.get('update')), indent=1)[:3000])
+        return 1
     if d.get('kind') == 'algebra':
         c = d['case']
         out = zp_cases.run_transfer_case(c['inst'], d['P']) if 'G' in c['inst'] else zp_cases.run_sweep_case(c['inst'], d['P'])
